@@ -85,6 +85,7 @@ fn plan_scenario(c: &mut Case, shifting_ok: bool, fin: &mut dyn FnMut(&mut Case,
     profile.gc = profile.gc && c.t.bool();
     let mut cfg = steer_cfg(c, Kind::Static, profile);
     cfg.max_funcs = 3;
+    cfg.min_funcs = 1;
     cfg.max_stmts = 5;
     let m = gen_module(&mut c.t, &cfg);
     let bytes = m.encode();
